@@ -2,10 +2,12 @@ CONSTANTS
   Names <- MCNames3
   MaxNodes = 4
   AllowDangling = TRUE
+  AllowCycles = TRUE
   CheckSkips = {1, 2, 3, 4, 5, 6, 7, 8}
   FullUpTo = 0
+  OnlyCyclic = FALSE
   MinNodes = 99
 INIT Init
 NEXT Next
-INVARIANTS TypeOK Acyclic InvDesign InvAlgebra InvUnderRoot
+INVARIANTS TypeOK AcyclicUnlessAllowed InvDesign InvAlgebra InvUnderRoot
 CHECK_DEADLOCK FALSE
